@@ -8,7 +8,13 @@ only=set(sys.argv[2:])
 def sh(cmd, cwd=None):
     p=subprocess.run(cmd, shell=True, cwd=cwd, stdout=subprocess.PIPE, stderr=subprocess.STDOUT, text=True)
     return p.returncode, p.stdout
-assert sh('git -C /repo status --porcelain')[1].strip()=='', '/repo not clean'
+# MATRIX_REPO=<dir>: work in a scratch worktree of /repo's HEAD at <dir> (checks run with VERIF_REPO=<dir>)
+# instead of applying the change to /repo itself, so that /repo stays free for other runs meanwhile
+REPO=os.environ.get('MATRIX_REPO','/repo')
+if REPO!='/repo':
+    sh('git -C /repo worktree remove --force '+REPO)
+    rc,o=sh('git -C /repo worktree add --detach %s HEAD'%REPO); assert rc==0,o
+assert sh('git -C %s status --porcelain'%REPO)[1].strip()=='', REPO+' not clean'
 rows=[]
 for key in sorted(os.listdir('/verif/seeded')):
     if only and key not in only: continue
@@ -16,17 +22,19 @@ for key in sorted(os.listdir('/verif/seeded')):
     if not os.path.isdir(d): continue
     meta=json.load(open(d+'/meta.json'))
     pid=meta['property']
-    rc,o=sh('git -C /repo apply %s/patch.diff'%d)
+    rc,o=sh('git -C %s apply %s/patch.diff'%(REPO,d))
     if rc!=0:
         print(key,'patch does not apply',o); continue
     try:
         t0=time.time()
-        rc,o=sh('cd /verif && ./check %s %s'%(pid,tier))
+        rc,o=sh('cd /verif && VERIF_REPO=%s ./check %s %s'%(REPO,pid,tier))
         dt=time.time()-t0
     finally:
-        sh('git -C /repo checkout -- . && git -C /repo clean -fdq')
+        sh('git -C %s checkout -- . && git -C %s clean -fdq'%(REPO,REPO))
     labels=sorted(set(re.findall(r'^  harness=(\S+) label=(\S+) kind=',o,re.M)))
     meta['caught_by']={'command':'./check %s %s'%(pid,tier),'exit':rc,'seconds':round(dt),'violations':['%s/%s'%l for l in labels][:8],'caught':rc==1}
     json.dump(meta,open(d+'/meta.json','w'),indent=1)
     print(key,'exit=%d'%rc,'%ds'%dt,[l[1] for l in labels][:3],flush=True)
-assert sh('git -C /repo status --porcelain')[1].strip()=='', '/repo not clean at end'
+assert sh('git -C %s status --porcelain'%REPO)[1].strip()=='', REPO+' not clean at end'
+if REPO!='/repo':
+    sh('git -C /repo worktree remove --force '+REPO)
